@@ -170,7 +170,7 @@ fn make_op(rng: &mut Rng, kind: &str, ids: Vec<i64>, as_range: bool, retries: Op
 /// op deletes when a third op addresses the same key.
 pub fn sanitize_phantoms(pre_ops: &[Op], actors: &mut [(u64, Op)], n_initial: i64) {
     let snapshot: Vec<Op> = pre_ops.iter().cloned().chain(actors.iter().map(|a| a.1.clone())).collect();
-    for (_, op) in actors.iter_mut() {
+    for (k, (_, op)) in actors.iter_mut().enumerate() {
         if let Op::Merge { ids, insert: true, .. } = op {
             ids.retain(|id| {
                 if *id >= n_initial {
@@ -183,7 +183,9 @@ pub fn sanitize_phantoms(pre_ops: &[Op], actors: &mut [(u64, Op)], n_initial: i6
                 !(deleter && touching >= 3)
             });
             if ids.is_empty() {
-                ids.push(n_initial + (1 << 39)); // a fresh key nobody else uses
+                // a fresh key nobody else uses (per actor: two upserts inserting the same new key are a
+                // phantom, outside the strict class)
+                ids.push(n_initial + (1 << 39) + ((k as i64 + 1) << 20));
             }
         }
     }
@@ -312,7 +314,7 @@ pub fn check_error_classes(out: &HistoryOutcome) -> Vec<Finding> {
         if let Err((c, m)) = &r.result {
             if r.op.is_row_mutation() && !is_conflict_class(c) {
                 let key_index = out.spec.pre_ops.iter().any(|o| matches!(o, Op::CreateIndex { col: "id", .. }));
-                if c == "Panic" && key_index && out.spec.stable_row_ids {
+                if (c == "Panic" || m.contains("RecvError")) && key_index && out.spec.stable_row_ids {
                     // `RecvError` is the consequence of a panic on Lance's CPU pool: attribute to the first one
                     let first = panics_between(out.window.0, out.window.1);
                     if first.iter().any(|l| l.contains("lance-table/src/rowids/segment.rs")) {
@@ -338,7 +340,10 @@ pub fn check_error_classes(out: &HistoryOutcome) -> Vec<Finding> {
                     continue;
                 }
                 if m.contains("Ambiguous merge insert")
-                    || (key_index && column_rewrite_committed && m.contains("Attempt to merge two RecordBatch with different sizes"))
+                    || (key_index
+                        && column_rewrite_committed
+                        && (m.contains("Attempt to merge two RecordBatch with different sizes")
+                            || m.contains("The input to a take operation specified fragment id")))
                 {
                     // our sources never hold a key twice: the duplicate comes from Lance's own join
                     f.push(Finding {
